@@ -5,7 +5,7 @@ set -u
 patch=$(readlink -f "$1"); prop=$2; secs=${3:-15}
 git -C /repo diff --quiet || { echo "repo dirty"; exit 2; }
 git -C /repo apply "$patch" || { echo "patch does not apply"; exit 2; }
-python3 /verif/tools/check.py "$prop" --time "$secs" > /tmp/mutant.out 2>&1
+VERIF_EVIDENCE=/verif/build/evidence_scratch python3 /verif/tools/check.py "$prop" --time "$secs" > /tmp/mutant.out 2>&1
 rc=$?
 git -C /repo checkout -- .
 echo "mutant=$(basename $patch) property=$prop exit=$rc $(grep -c '^VIOLATION' /tmp/mutant.out) violation(s)"
